@@ -85,8 +85,10 @@ namespace rkcommon {
   /*! returns the extension */
   std::string FileName::ext() const
   {
-    size_t pos = filename.find_last_of('.');
-    if (pos == std::string::npos)
+    size_t start = filename.find_last_of(path_sep);
+    size_t pos   = filename.find_last_of('.');
+    if (pos == std::string::npos
+        || (start != std::string::npos && pos < start))
       return "";
     return filename.substr(pos + 1);
   }
@@ -94,8 +96,10 @@ namespace rkcommon {
   /*! returns the extension */
   FileName FileName::dropExt() const
   {
-    size_t pos = filename.find_last_of('.');
-    if (pos == std::string::npos)
+    size_t start = filename.find_last_of(path_sep);
+    size_t pos   = filename.find_last_of('.');
+    if (pos == std::string::npos
+        || (start != std::string::npos && pos < start))
       return filename;
     return filename.substr(0, pos);
   }
